@@ -115,8 +115,10 @@ def stepJ (srvMode : Bool) (j : J) (sc : List String × List String) : J :=
   let j1 := { j with idx := j.idx + 1 }
   let fail (e : String) : J := { j1 with err := some s!"{e} step={j.idx}" }
   match st with
+  -- the version bits of the flag word the caller hands in (VhostUserHeaderFlag::VERSION = 3) never reach the wire: a header
+  -- always carries version 1; only NEED_REPLY (bit 3) is taken over. Other bits (REPLY, reserved) are the caller's error.
   | ["set_hdr_flags", v] => { j1 with n := { j.n with needReply := (pn v).testBit 3 },
-                                      clean := j.clean && ((pn v) == 0 || (pn v) == 8) }
+                                      clean := j.clean && ((pn v) &&& 0xfffffff4 == 0) }
   | _ =>
   if ret == "skipped" || ret == "?" then j1 else
   let (op, next') := parseOp st j.next
